@@ -1,7 +1,7 @@
 /-
 Line-protocol handler for the restart arithmetic (C17, scheduler half): ops prefixed `sched-`.
 
-  sched-setup <cstep> <rfrom|-> <steps>            → `refuses` | `continues rfrom=<n>`
+  sched-setup <cstep> <rfrom|-> <steps> [<workers>] → `refuses` | `continues rfrom=<n>`   (with workers: `setupRuleCfg`)
   sched-chain <cstep> <rfrom|-> <k> <t₁> … <t_k>    → `cstep=<n> rfrom=<n|-> moves=<n> ran=<k> <0|1>…`
 -/
 import Infretis.Model.Proto
@@ -25,6 +25,13 @@ def handle (toks : List String) : Option String :=
       | .refuse => some "refuses"
       | .go rf => some s!"continues rfrom={rf}"
     | _, _, _ => some "bad-op"
+  | ["sched-setup", c, r, t, w] =>
+    match parseNat? c, parseOptNat? r, parseNat? t, parseNat? w with
+    | some c, some r, some t, some w =>
+      match setupRuleCfg { cstep := c, rfrom := r, steps := t, workers := w } with
+      | .refuse => some "refuses"
+      | .go rf => some s!"continues rfrom={rf}"
+    | _, _, _, _ => some "bad-op"
   | "sched-chain" :: c :: r :: rest =>
     match parseNat? c, parseOptNat? r, takeList parseNat? rest with
     | some c, some r, some (ts, []) =>
